@@ -25,8 +25,12 @@ class Random:
 
         scale_factor = 10 ** precision
         # nearest grid points, moved inside [start, end] if rounding stepped out of it
-        left_number = round(start * scale_factor)
-        right_number = round(end * scale_factor)
+        try:
+            left_number = round(start * scale_factor)
+            right_number = round(end * scale_factor)
+        except OverflowError:
+            # the scaled bound is infinite: no float of that magnitude lies on the grid anyway
+            return self.random_float(start, end)
         if round(left_number / scale_factor, precision) < start:
             left_number += 1
         if round(right_number / scale_factor, precision) > end:
